@@ -4,8 +4,15 @@
     axes child_index <parent> <child> <tree>
   Answers: `l p1 p2 …` (lists; edges `S:p` / `E:p`; level order `N:p` / `End`), `none` / `some p`,
   `ok p` / `err:<Variant>` / `panic`.
+  The per-node read accessors (Model/ValueAccess.lean): `has_document_parent`, `is_document_element`
+  -> `b 0|1`; `get_element_name` -> `ok <name>` | `panic`; `comment_str` -> `none` | `some <str>`;
+  `processing_instruction` -> `none` | `some <target> <str|->`; `namespace_node` -> `none` |
+  `some <prefix> <ns>`; `attribute_node` -> `none` | `some <name> <str>`; `namespace_declarations` ->
+  `l p:ns …` (Vec order); `get_attribute*<n>` / `get_namespace*<n>` -> `l 0=<str|-> 1=…` resp.
+  `l 0=<ns|-> …`: the call for every name id / prefix id below `<n>`.
 -/
 import XotModel.Model.Axes
+import XotModel.Model.ValueAccess
 import XotModel.Driver.TreeCodec
 
 namespace XotModel.Driver
@@ -36,6 +43,24 @@ def showAxOutcome : Outcome AxErr Path → String
   | .err .notDocument => "err:NotDocument"
   | .err .noElementAtTopLevel => "err:NoElementAtTopLevel"
   | .panic => "panic"
+
+def showB01 (b : Bool) : String := if b then "b 1" else "b 0"
+
+def showOptStrAx : Option Str → String
+  | none => "-"
+  | some s => encStr s
+
+/-- `get_attribute*<n>` / `get_namespace*<n>`: the keyed accessors for every key id below `n`. -/
+def keyedEntry (t : Tree) (p : Path) (entry : String) : Option String :=
+  match entry.splitOn "*" with
+  | ["get_attribute", n] => do
+      let n ← n.toNat?
+      some (String.intercalate " " ("l" :: (List.range n).map fun k => s!"{k}={showOptStrAx (getAttribute t p k)}"))
+  | ["get_namespace", n] => do
+      let n ← n.toNat?
+      some (String.intercalate " " ("l" :: (List.range n).map fun k =>
+        s!"{k}={match getNamespace t p k with | some ns => toString ns | none => "-"}"))
+  | _ => none
 
 def parseAxis : String → Option Axis
   | "child" => some .child
@@ -86,10 +111,24 @@ def axesEntry (t : Tree) (p : Path) (entry : String) : Option String :=
   | "top_element" => some (showAxOutcome (topElement t p))
   | "document_element" => some (showAxOutcome (documentElement t p))
   | "attribute_nodes" => some (showPaths (attributeNodes t p))
+  | "has_document_parent" => some (showB01 (hasDocumentParent t p))
+  | "is_document_element" => some (showB01 (isDocumentElement t p))
+  | "get_element_name" => some (match getElementName t p with | .ok n => s!"ok {n}" | _ => "panic")
+  | "comment_str" => some (match commentStr t p with | some s => "some " ++ encStr s | none => "none")
+  | "processing_instruction" =>
+    some (match processingInstruction t p with
+      | some (target, d) => s!"some {target} {showOptStrAx d}"
+      | none => "none")
+  | "namespace_node" =>
+    some (match namespaceNode t p with | some (pf, ns) => s!"some {pf} {ns}" | none => "none")
+  | "attribute_node" =>
+    some (match attributeNode t p with | some (n, v) => s!"some {n} {encStr v}" | none => "none")
+  | "namespace_declarations" =>
+    some (String.intercalate " " ("l" :: (namespaceDeclarations t p).map fun (pf, ns) => s!"{pf}:{ns}"))
   | _ =>
     if entry.startsWith "axis_" then
       (parseAxis (entry.drop 5).toString).map fun a => showPaths (axis t a p)
-    else none
+    else keyedEntry t p entry
 
 /-- Entry points in the order of the harness's `all_entries()` (bundled request `axes all`). -/
 def allEntries : List String :=
@@ -100,6 +139,8 @@ def allEntries : List String :=
    "traverse", "all_traverse", "reverse_traverse", "reverse_all_traverse", "edge_walk_next", "edge_walk_prev",
    "edge_next_start", "edge_next_end", "edge_prev_start", "edge_prev_end",
    "level_order", "root", "top_element", "document_element",
+   "has_document_parent", "is_document_element", "get_element_name", "comment_str", "processing_instruction",
+   "namespace_node", "attribute_node", "namespace_declarations", "get_attribute*20", "get_namespace*7",
    "axis_child", "axis_descendant", "axis_parent", "axis_ancestor", "axis_following_sibling",
    "axis_preceding_sibling", "axis_following", "axis_preceding", "axis_attribute", "axis_self",
    "axis_descendant_or_self", "axis_ancestor_or_self"]
